@@ -209,6 +209,99 @@ def check_whenseq(rep, tier, strats, prop):
                             "expected": p["expected"]})
 
 
+# ------------------------------------------------------------------------------------------------ C13 / C12 / C05: CoroSeq.tla
+
+CORO_FLAVOURS = {"plain": "symmetric transfer everywhere", "plain_nofst": "no symmetric transfer in final_suspend",
+                 "plain_nost": "no symmetric transfer"}
+
+
+def coro_line(pr):
+    body = "/".join(".".join(s) for s in pr["body"]) or "-"
+    return "kind=%s;start=%s;rej=%s;second=%s;body=%s" % (pr["kind"], pr["start"], pr["rej"], pr["second"], body)
+
+
+def _run_cseq(exe, lines):
+    """run the programs; a dying process loses one program only. Returns ({index: fields}, {index: exit code})"""
+    got, died = {}, {}
+    base = 0
+    while base < len(lines):
+        rc, out, err = core.sh([exe], stdin="\n".join(lines[base:]) + "\n", timeout=1800)
+        n = 0
+        for ln in out.splitlines():
+            if " " in ln:
+                i, rest = ln.split(" ", 1)
+                try:
+                    got[base + int(i)] = dict(kv.split("=", 1) for kv in rest.split(";") if "=" in kv)
+                    n = max(n, int(i) + 1)
+                except ValueError:
+                    pass
+        if base + n >= len(lines):
+            break
+        died[base + n] = rc
+        base += n + 1
+    return got, died
+
+
+def check_coroseq(rep, tier, cfgs, flavours=("plain", "plain_nofst", "plain_nost"), only_kind=None):
+    """coroutine programs: TLC checks the interpreter's properties and prints the expected log, cseq executes them"""
+    wd = core.workdir("CoroSeq")
+    progs = []
+    for cfg in cfgs:
+        ps, r = tlc_programs(rep, wd, "CoroSeq.tla", cfg, tag="CPROG", what="coroutine programs (%s)" % cfg)
+        for inv in r.violated:
+            rep.violation("%s/model/CoroSeq" % inv, "TLC: %s violated in CoroSeq.tla (%s)" % (inv, cfg),
+                          {"tlc_cfg": cfg, "tlc_trace": r.out[-3000:]})
+        progs += ps
+    if only_kind:
+        progs = [p for p in progs if p["prog"]["kind"] in only_kind]
+    seen, uniq = set(), []
+    for p in progs:
+        ln = coro_line(p["prog"])
+        if ln not in seen:
+            seen.add(ln)
+            uniq.append(p)
+    progs = uniq
+    if not progs:
+        raise MachineryError("TLC printed no coroutine programs for %s" % (cfgs,))
+    lines = [coro_line(p["prog"]) for p in progs]
+    bad = {}
+    ran = 0
+    for fl in flavours:
+        exe = core.build_harness(name="cseq", sources=["cseq.cpp"], flavour=fl)
+        got, died = _run_cseq(exe, lines)
+        ran += len(got)
+        for i, p in enumerate(progs):
+            pr = p["prog"]
+            sig = "+".join(sorted({s[0] + ("." + s[1] if s[1] != "-" else "") for s in pr["body"]})) or "empty"
+            cell = "%s/%s%s/%s" % (fl, pr["kind"], "" if pr["start"] == "-" else ":" + pr["start"], sig)
+            if i in died:
+                bad.setdefault("crash/coroseq/" + cell, []).append((p, None, "the process died (exit %s) while executing this program" % died[i]))
+                continue
+            g = got.get(i)
+            if g is None:
+                raise MachineryError("cseq printed no result for program %d (%s)" % (i, lines[i]))
+            exp = {"log": p["log"], "final": p["final"], "sub": "%d,%d" % tuple(p["sub"]), "calls": "%d,%d" % tuple(p["calls"]),
+                   "drops": "%d,%d" % tuple(p["drops"]), "frames": "%d,%d,0" % (p["begun"], p["begun"]), "leak": "0"}
+            for f in ("log", "final", "sub", "calls", "drops", "frames", "leak"):
+                if g.get(f) != exp[f]:
+                    bad.setdefault("%s/coroseq/%s" % (f, cell), []).append(
+                        (p, g, "%s is %s, the specification prescribes %s" % (f, g.get(f), exp[f])))
+                    break
+    for key, lst in sorted(bad.items()):
+        p, g, msg = min(lst, key=lambda x: len(x[0]["prog"]["body"]))
+        rep.violation(key, "%s (%d programs of this cell; smallest: %s)" % (msg, len(lst), coro_line(p["prog"])),
+                      {"kind": "coroseq", "flavour": key.split("/")[2], "program": coro_line(p["prog"]),
+                       "expected": {k: p[k] for k in ("log", "final", "sub", "calls", "drops", "begun")}, "got": g})
+    rep.executions += len(progs) * len(flavours)
+    rep.traces += ran
+    rep.extra["coroutine_programs"] = rep.extra.get("coroutine_programs", 0) + len(progs)
+    rep.extra["coroutine_configurations"] = [CORO_FLAVOURS[f] for f in flavours]
+    if progs and len(rep.samples) < 6:
+        p = progs[len(progs) // 2]
+        rep.samples.append({"kind": "coroutine program enumerated by TLC and executed on the real coroutine layer",
+                            "program": coro_line(p["prog"]), "expected": {k: p[k] for k in ("log", "final")}})
+
+
 # ------------------------------------------------------------------------------------------------ C05 / C07: ExecSeq.tla
 
 def check_execseq(rep, tier):
